@@ -13,7 +13,6 @@ from vlib import core
 from checks import c11_table, c11_gen
 
 META = {
-    "claimed": False,
     "harness_bins": ["nkeval"],
     "extract": "C11.v",
     "technique": "Coq proofs about an executable model of sealing (lazy big-step semantics with Sealed values, "
@@ -22,25 +21,35 @@ META = {
                  "behaviour on a sealed operand for every primop position (primop list extracted from the "
                  "source), re-proved on every run; model tied to the code by differential runs on generated "
                  "forall-contracts x implementations classified by construction",
-    "level_text": "Theorems (coq/Props/C11.v): (1) C11_seal_guard_generated — in the table obtained by running "
-                  "the real interpreter on one program per strict operand position of every UnaryOp/BinaryOp/"
-                  "NAryOp variant (enumerated from core/src/term/mod.rs, so a new primop shows up as Unexplored "
-                  "and fails) and on application/if/match/interpolation/==/serialisation/export, every entry "
-                  "except seq and unseal-with-the-matching-key is Blame, and every record operation on a sealed "
-                  "tail is TailAccess/Blame or blind to the tail; (2) C11_inspect_blames(_contract) — in the "
-                  "model, a sealed value in any strict position other than unseal-with-its-key/seq blames with "
-                  "the seal's label, and `(fun x => F[x]) | forall a. a -> T` blames positively for every "
-                  "strict frame F; further theorems as listed in the evidence. The model is hand-written "
-                  "(mirrors internals.ncl, typ.rs subcontract, peek_sealed_cont, the record primops); it is "
-                  "tied to the code by running the extracted model and nkeval on the same generated programs "
-                  "(contracted and bare) and comparing outcome classes and exported values, with the direct "
-                  "oracle contracted==bare for parametric implementations and Blame/TailAccess for inspecting, "
-                  "fabricating and tail-touching ones.",
+    "level_text": "Theorems (coq/Props/C11.v, all Qed, closed under the global context). Translator-tied: "
+                  "C11_seal_guard_generated — in the table obtained by running the real interpreter on one program per "
+                  "strict operand position of every UnaryOp/BinaryOp/NAryOp variant (enumerated from core/src/term/mod.rs "
+                  "and lexer.rs on every run, so a new primop without a program is Unexplored and fails) and on "
+                  "application/if/match/destructuring/interpolation/==/serialisation/export/contract application, every "
+                  "entry except seq and unseal-with-the-matching-key is Blame, and every record operation on a sealed tail "
+                  "is TailAccess/Blame or blind to the tail (same outcome for two tails and no tail). On the model of "
+                  "internals.ncl/typ.rs/peek_sealed_cont/record primops: C11_inspect_blames(_contract) (a sealed value in "
+                  "any strict position other than unseal-with-its-key/seq blames with the seal's label; "
+                  "`(fun x => F[x]) | forall a. a -> T` blames positively for every strict frame F), "
+                  "C11_fundamental / C11_parametric_erasure_partial / C11_parametric_transparent / C11_parametric_(annotation_)"
+                  "same_result(2) (for every term accepted by the syntactic criterion has_ty/passes_only — quantified values only "
+                  "bound, passed, stored in arrays/records, returned, seq'ed — whatever the bare run produces, the run under "
+                  "`forall a... . T` produces an outcome related by a seal-erasure relation that is a congruence on closures, "
+                  "arrays and records; equal at base types; callbacks and containers included), C11_tail_guarded / tail_sealed / "
+                  "tail_preserved / tail_tampered_blames / excluded_field_blames (record-row tails), "
+                  "C11_nested_foralls_have_distinct_keys (higher-rank nesting), and refuted variants (no polarity flip in $func; "
+                  "typeof not stopped by a seal) plus the two known key-freshness findings as _refuted lemmas. Tie: the extracted "
+                  "model and nkeval are run on the same generated programs (contracted and bare); outcome classes and exported "
+                  "values must agree, and the direct oracle (no model) is contracted==bare for parametric implementations and "
+                  "Blame/TailAccess for inspecting, fabricating and tail-touching ones.",
     "level_note": "Trusted: Coq kernel; extraction (ExtrOcamlBasic+ExtrOcamlNativeString); the model's reading of "
                   "the anchors; the translator checks/c11_table.py (regexes over term/mod.rs and lexer.rs, "
                   "hand-written source templates for operators without %name% spelling); generator "
                   "checks/c11_gen.py. Modelled, not verified: call-by-name without memoisation, integers only, "
-                  "no enums/dicts/merge in the model (they are in the interpreter table). Known findings "
+                  "no enums/dicts/merge in the model (they are in the interpreter table). Partial: the erasure theorems prove "
+                  "the direction bare-outcome => contracted-outcome (C11_full_parametric_erasure, both directions, is stated and "
+                  "type-checked only), for prenex type variables with ordered closed records; row variables are covered by the "
+                  "tail theorems and, like higher-rank and mid-spine quantifiers, by the correspondence runs. Known findings "
                   "(design-level, not fixed): sealing keys restart at 0 for every generated contract and are "
                   "per contract rather than per instantiation.",
 }
@@ -131,6 +140,28 @@ def judge(ck, c):
             ck.obligation("correspondence:model-vs-nkeval", "correspondence", False,
                           "class %s prim %s\n%s\nimpl  contracted %s | bare %s\nmodel contracted %s | bare %s\ncase %s"
                           % (klass, prim, c["src"][:500], c["i_c"], c["i_b"], c["m_c"], c["m_b"], c["sx"][:500]))
+
+
+class _Quiet:
+    """stand-in for a Check when the table is regenerated outside a check run (./verif setup)"""
+    def __init__(self):
+        self.problems = []
+
+    def obligation(self, name, kind, ok, detail=""):
+        if not ok:
+            self.problems.append("%s: %s" % (name, detail[-300:]))
+        return ok
+
+
+def setup_gen():
+    """Regenerate coq/Gen/SealTable.v from /repo (same code path as run)."""
+    rc, out = core.cargo_build(["nkeval"])
+    if rc != 0:
+        raise RuntimeError("cargo build of nkeval failed:\n" + out[-2000:])
+    q = _Quiet()
+    c11_table.generate(q, core.REPO, core.harness_bin("nkeval"))
+    for p in q.problems:
+        print("[C11 setup_gen] " + p)
 
 
 def run(ck):
